@@ -1,0 +1,22 @@
+//go:build verif
+
+package regulator
+
+// VerifWaitingQueue returns a copy of the waiting queue of a regulator created by
+// NewRegulator, taken under the regulator's own read lock. Read-only; it exists only so that
+// verification monitors can tell a dropped player from one who is legitimately waiting.
+func VerifWaitingQueue(reg Regulator) []string {
+
+	r, ok := reg.(*regulator)
+	if !ok {
+		return nil
+	}
+
+	r.mu.RLock()
+	defer r.mu.RUnlock()
+
+	queue := make([]string, len(r.waitingQueue))
+	copy(queue, r.waitingQueue)
+
+	return queue
+}
